@@ -100,6 +100,34 @@ try:
     tried += 1
     if got != exp:
         verdict(True, "filter_excluded did not keep exactly the changes outside the excluded path", observed=str(got), expected=str(exp))
+    # the selection on real trees: with pending changes in the tree, every way of selecting paths (including the EMPTY selection, which
+    # means "no files at all") records the selected paths and nothing else, and leaves the rest pending
+    import itertools as _it
+    for sel in ([], ["p1"], ["p2", "d/p3"], None):
+        tried += 1
+        ds = os.path.join(base, "sel_%d" % tried); os.mkdir(ds)
+        cds = controldir.format_registry.make_controldir("2a").initialize(ds); cds.create_repository(); cds.create_branch()
+        wts = cds.create_workingtree()
+        os.mkdir(os.path.join(ds, "d"))
+        for n_ in ("p1", "p2", "d/p3"):
+            open(os.path.join(ds, n_), "w").write("one\n")
+        wts.add(["p1", "p2", "d", "d/p3"]); wts.commit("1", committer="t <t@e.x>")
+        for n_ in ("p1", "p2", "d/p3"):
+            open(os.path.join(ds, n_), "w").write("two\n")
+        try:
+            wts.commit("2", specific_files=sel, allow_pointless=True, committer="t <t@e.x>")
+        except Exception as e:  # noqa
+            verdict(True, "commit with a selection failed", input=str(sel), observed="%s: %s" % (type(e).__name__, e))
+        tree = wts.branch.basis_tree()
+        with tree.lock_read():
+            committed = sorted(n_ for n_ in ("p1", "p2", "d/p3") if tree.get_file_text(n_) == b"two\n")
+        want = sorted(["p1", "p2", "d/p3"] if sel is None else sel)
+        wts2 = wts.controldir.open_workingtree()
+        with wts2.lock_read():
+            pending = sorted(ch_.path[1] for ch_ in wts2.iter_changes(wts2.basis_tree()))
+        if committed != want or pending != sorted(set(["p1", "p2", "d/p3"]) - set(want)):
+            verdict(True, "a commit recorded other paths than the selected ones (or did not leave the rest pending)",
+                    input=dict(specific_files=sel), observed="committed %s, still pending %s" % (committed, pending), expected="committed %s" % want)
     verdict(False, "no failing scenario among %d" % tried)
 finally:
     shutil.rmtree(base, ignore_errors=True)
